@@ -368,7 +368,8 @@ var (
 	gPallas = &groupDesc[*pasta.PallasPoint, *pasta.PallasScalar]{name: "pallas", group: pasta.NewPallasCurve(), model: pallasC, aff: affOf[*pasta.PallasPoint, *pasta.PallasBaseFieldElement, *pasta.PallasScalar]}
 	gVesta  = &groupDesc[*pasta.VestaPoint, *pasta.VestaScalar]{name: "vesta", group: pasta.NewVestaCurve(), model: vestaC, aff: affOf[*pasta.VestaPoint, *pasta.VestaBaseFieldElement, *pasta.VestaScalar]}
 	gG1     = &groupDesc[*bls12381.PointG1, *bls12381.Scalar]{name: "blsG1", group: bls12381.NewG1(), model: blsG1C, aff: affOf[*bls12381.PointG1, *bls12381.BaseFieldElementG1, *bls12381.Scalar]}
-	gG2     = &groupDesc[*bls12381.PointG2, *bls12381.Scalar]{name: "blsG2", group: bls12381.NewG2()}
+	gG2     = &groupDesc[*bls12381.PointG2, *bls12381.Scalar]{name: "blsG2", group: bls12381.NewG2(),
+		genEq: func(k *big.Int, e *bls12381.PointG2) bool { return g2MulEq(k, bls12381.NewG2().Generator(), e) }}
 )
 
 // checkModels makes sure each math/big model describes the library's group: same order, and the library's generator is the model's.
@@ -400,11 +401,15 @@ func checkModels() {
 	chk("pallas", pallasC, gPallas.group.Order().Big(), gPallas.aff(gPallas.group.Generator()))
 	chk("vesta", vestaC, gVesta.group.Order().Big(), gVesta.aff(gVesta.group.Generator()))
 	chk("blsG1", blsG1C, gG1.group.Order().Big(), gG1.aff(gG1.group.Generator()))
-	for _, m := range []*wcurve{pallasC, vestaC} {
-		if !m.mul(m.N, m.gen()).inf {
-			panic("pasta model generator order")
+	for _, m := range []*wcurve{secp, nistp256, pallasC, vestaC, blsG1C} {
+		// [N-1]G = -G  <=>  [N]G = O  (mul reduces its scalar mod N, so [N]G itself would be vacuous)
+		g := m.gen()
+		nm1 := m.mul(new(big.Int).Sub(m.N, big.NewInt(1)), g)
+		if nm1.inf || nm1.x.Cmp(g.x) != 0 || new(big.Int).Add(nm1.y, g.y).Cmp(m.P) != 0 {
+			panic("model generator order")
 		}
 	}
+	checkG2Model()
 }
 
 func sortedKeys[V any](m map[ID]V) []ID {
